@@ -174,6 +174,58 @@ func main() {
 		}
 	}
 	sort.Slice(fns, func(i, j int) bool { return fns[i].Name() < fns[j].Name() })
+	if cmd == "gosites" {
+		// every go statement in the non-test, non-internal code of the modules under test
+		type site struct {
+			Pos    string `json:"pos"`
+			In     string `json:"in"`
+			Callee string `json:"callee"`
+		}
+		uniq := map[string]site{}
+		for f := range ssautil.AllFunctions(prog) {
+			o := f
+			if f.Origin() != nil {
+				o = f.Origin()
+			}
+			if o.Pkg == nil || f.Blocks == nil {
+				continue
+			}
+			path := o.Pkg.Pkg.Path()
+			if !strings.HasPrefix(path, "github.com/akramarenkov/cqos") || strings.Contains(path, "/internal/") {
+				continue
+			}
+			if strings.HasPrefix(o.Name(), "Verif") || strings.Contains(prog.Fset.Position(o.Pos()).Filename, "zz_verif_") {
+				continue
+			}
+			for _, b := range f.Blocks {
+				for _, ins := range b.Instrs {
+					if g, ok := ins.(*ssa.Go); ok {
+						callee := "?"
+						if sc := g.Call.StaticCallee(); sc != nil {
+							callee = sc.String()
+							if sc.Origin() != nil {
+								callee = sc.Origin().String()
+							}
+						}
+						ps := posOf(prog, g.Pos())
+						uniq[ps] = site{Pos: ps, In: o.String(), Callee: callee}
+					}
+				}
+			}
+		}
+		var out2 []site
+		for _, s := range uniq {
+			out2 = append(out2, s)
+		}
+		sort.Slice(out2, func(i, j int) bool { return out2[i].Pos < out2[j].Pos })
+		data, _ := json.MarshalIndent(out2, "", " ")
+		if *out != "" {
+			os.WriteFile(*out, data, 0o644)
+		} else {
+			os.Stdout.Write(data)
+		}
+		return
+	}
 	if cmd == "list" {
 		for _, f := range fns {
 			fmt.Println(f.Name())
